@@ -23,6 +23,16 @@ Per run:
      compared with Coq on every obligation of the run): every single-occurrence mutant of every model program of the CURRENT
      translation must be killed by a committed obligation, except the mutants committed as unkillable (with the reason)
      under "adequacy" in c15_nesting.json.  A surviving mutant that is not on that list is a hole opened by a source change.
+     Second mutant class (same rule, "adequacy"."exchange"): for every model and every pair of distinct parameters of the same
+     kind (two sizes, two times, two rates, two gammas, two proportions) the program with the two parameters EXCHANGED IN ALL
+     THEIR OCCURRENCES (= __param_names__ transposed relative to the body) must break a committed obligation, unless the
+     exchanged program normalises to the same program (a provable symmetry).
+ (6) name semantics (harness/props/c15_names.json, built once from the unchanged tree by harness/tools/c15_names.py and reviewed):
+     for every function, the keyword of the library call every declared parameter is handed to ('position:function.keyword') must
+     be the committed one; functions the table does not know must follow the conventions themselves (mIJ -> keyword mIJ, nuK /
+     nuKa / nuKb -> nuK, gammaK -> gammaK, hK -> hK, local name bound by the unpacking = declared name).  A difference is a
+     violation; its failing input is searched among the nestings of that model (run at extra vectors that keep the parameters
+     concerned well apart), reported with the parameter vectors BY NAME.
 """
 import json, math, os, random, re, time
 from fractions import Fraction
@@ -33,6 +43,7 @@ from harness.props import c15_common as K
 from harness.props.c15_common import parse_point_value
 
 DATA = os.path.join(os.path.dirname(os.path.abspath(__file__)), 'c15_nesting.json')
+NAMES = os.path.join(os.path.dirname(os.path.abspath(__file__)), 'c15_names.json')
 PAIR_TOL = 1e-10
 NEG_TOL = 1e-9
 
@@ -116,11 +127,12 @@ def run(ctx):
         'documented parameter bounds: nu in [1e-2,100], T in [0,3], m in [0,10], fractions in (0,1); the kinds are read off the declared names (nu*: >0, T*, m*: >=0, s/f/F: in (0,1), gamma*: free)',
         'numerical runs use short times (the number of time steps is capped) so that the quick tier stays within minutes',
         'non-negativity is asserted up to -1e-9*max on a grid that resolves the model: a run with a negative entry is repeated on grids of about 2x and 4x the points; it is a violation unless the negative part vanishes or shrinks by at least 0.6 per refinement and ends below 1e-3 of the largest entry (observed on the unchanged tree: factor 0.25-0.5 per doubling, i.e. discretisation error of the central differences for migration/selection)',
-        'nesting pairs agree to 1e-10 relative to the largest entry (observed: 0 or ~1e-16 on the unchanged tree)',
+        'nesting pairs agree to 1e-10 relative to the largest entry (observed: 0 or ~1e-16 on the unchanged tree; <= 3e-13 for the zero-length-first-epoch nestings of the admix_origin family, where f*x+(1-f)*x is x only up to rounding)',
         'concrete semantics: the real function and Model/ProgSem.run_prog (128-bit software floats) agree on every unmasked entry to 1e-7 of the largest entry (observed: <= 1e-11) at timescale_factor = 0.125, grids of 6-10 points, sample sizes 2-4, dyadic in-bounds parameters (nu in [1/4,4], m in [0,4], gamma in [-4,2], fractions in [1/8,7/8], times <= 1 and about 20 time steps per model)',
         'label exchange of a symmetric model holds up to the operator-splitting error of the alternating-direction scheme; required: error at timescale_factor/64 <= 0.35 x error at timescale_factor=1e-3 (observed ratios 0.006-0.15, ideal 1/64), or below 1e-9']
     ctx.trusted += [
-        'Section hypotheses H_T0 / H_pulse0 of Proofs/DSLProofs.v: PROVED for the concrete operations of Model/ProgSem.v (Props/C15Concrete.v: C15_concrete_H_T0, C15_concrete_H_pulse0); they remain hypotheses only of the abstract statements of Props/C15.v',
+        'Section hypotheses H_T0 / H_pulse0 / H_admix_diag of Proofs/DSLProofs.v (zero-duration integration, zero pulse, admixture directly after the first split = split of population 2): PROVED for the concrete operations of Model/ProgSem.v (Props/C15Concrete.v: C15_concrete_H_T0, C15_concrete_H_pulse0, C15_concrete_H_admix_diag); they remain hypotheses only of the abstract statements of Props/C15.v',
+        'name-semantics table harness/props/c15_names.json and its reviewed deviations from the naming conventions (ms command slots of the *_mscore helpers; gamma1 = selection in population 1 AND the ancestral population in the DFE models, as documented)',
         'concrete semantics (Model/ProgSem.v): composition of the executable models of C01 (phi_1D), C06 (split / admixture / pulses), C02-C04 (integrate_const / integrate_tdep, time-step rule), C05 (from_phi, from_phi_inbreeding); compared with the real library function on every run for every model returning a spectrum. Not modelled: the ValueError tests of Integration.py on negative sizes / rates and on frozen populations with migration (outside the documented bounds)',
         'hypotheses E_* of the relabelling theorem: the numerical layer commutes with exchanging population labels (true of the diffusion, approximately of the alternating-direction scheme; measured at two time steps)',
         'the translator harness/translate/models_dsl.py (fail-closed) and the parameter kinds derived from the declared names',
@@ -172,6 +184,9 @@ def run(ctx):
                    all('%s:%s' % (f['file'], f['name']) in progs or '%s:%s' % (f['file'], f['name']) in broken_models for f in data['functions'])
                    and not any(v.startswith('function or its') for v in broken_models.values()), 'translator',
                    '; '.join(k for k, v in broken_models.items() if v.startswith('function or its')))
+
+    # ---- (6) name semantics: every declared parameter is handed to the committed keyword ------------------
+    names_failed = name_semantics(ctx, data, progs)
 
     # ---- (2) Coq obligations -----------------------------------------------------------------------
     wf_cases, wf_meta = [], {}
@@ -351,10 +366,17 @@ def run(ctx):
         c, s = progs[pr['complex']], progs[pr['simple']]
         su = pair_sg[pr['id']]
         d = dims_of(s['prog'])
-        for v in range(ctx.pick(1, 2)):
+        # a model whose name semantics changed: its nestings are the search for a failing input -- two extra vectors that keep
+        # the common parameters feeding the parameters concerned well apart (from a stream of their own)
+        concerned = concerned_commons(su, c, s, pr, names_failed)
+        nbase = ctx.pick(1, 2)
+        for v in range(nbase + (2 if concerned is not None else 0)):
             # one vector of the COMMON parameters (= the simple model's parameters for a one-sided pair); both models are run at
             # their side of the nesting point
-            q = gen_params(rng, su['common'], budget // 2 if d < 3 else budget // 4)
+            rg = rng if v < nbase else random.Random('C15-names-%d-%s-%d' % (ctx.seed, pr['id'], v))
+            q = gen_params(rg, su['common'], budget // 2 if d < 3 else budget // 4)
+            if v >= nbase:
+                spread_apart(q, su['common'], concerned, v - nbase)
             if su['two_sided']:
                 # times as multiples of 2^-10 (sums/differences of times at the point are then exact in floating point);
                 # a time / rate the pair assumes > 0 is kept > 0
@@ -365,8 +387,10 @@ def run(ctx):
                         q[i] = 1 / 1024.0
             ps = [N.evaluate(e, q) for e in su['sgs']]
             pc = [N.evaluate(e, q) for e in su['sgc']]
-            ns = [rng.choice([4, 5]) for _ in range(d)]
-            pts = rng.choice([12, 14]) if d >= 3 else rng.choice([16, 20])
+            ns = [rg.choice([4, 5]) for _ in range(d)]
+            if uses_inbreeding(c['prog']) or uses_inbreeding(s['prog']):
+                ns = [rg.choice([4, 6]) for _ in range(d)]       # sample sizes must be multiples of the ploidy (2)
+            pts = rg.choice([12, 14]) if d >= 3 else rg.choice([16, 20])
             jid = 'pair|%s|%d' % (pr['id'], v)
             jobs.append({'id': jid, 'kind': 'pair', 'cfile': c['file'], 'cname': c['name'], 'sfile': s['file'], 'sname': s['name'],
                          'cparams': pc, 'sparams': ps, 'ns': ns, 'pts': pts, '_cost': 2 * (pts ** d) * 2})
@@ -410,6 +434,7 @@ def run(ctx):
     jobs_by_id = {j['id']: {k: v for k, v in j.items() if not k.startswith('_')} for j in jobs}
 
     worst_neg = 0.0; coarse_neg = 0; worst_pair = 0.0
+    models_with_input = set()       # models involved in a nesting violation that carries a failing input
     for jid, r in sorted(res.items()):
         kind = jid.split('|')[0]
         m = meta.get(jid)
@@ -502,9 +527,20 @@ def run(ctx):
                 at = '%s' % {k: v for k, v in pr.get('point', {}).items() if k != v}
                 if pr.get('simple_point'):
                     at += ' with %s at %s' % (sn, {k: v for k, v in pr['simple_point'].items() if k != v})
-                ctx.violation('%s%r differs from %s%r by %.3g of the largest entry (ns=%s, pts=%d): %s is not nested at %s' % (
-                              cn, tuple(pc), sn, tuple(ps), rel, ns, pts, sn, at),
-                              data={'job': job, 'result': r, 'pair': pr}, key=pr.get('key') if fnd else 'nesting:%s' % pr['id'])
+                byname = {}
+                for side, mk, vec in (('complex', pr['complex'], pc), ('simple', pr['simple'], ps)):
+                    if mk in progs and len(progs[mk]['param_names']) == len(vec):
+                        byname[side] = dict(zip(progs[mk]['param_names'], vec))
+                sem = '; '.join('%s: %s' % (mk.split(':')[-1], names_failed[mk]['msg']) for mk in dict.fromkeys((pr['complex'], pr['simple'])) if mk in names_failed)
+                ctx.violation('%s%r differs from %s%r by %.3g of the largest entry (ns=%s, pts=%d): %s is not nested at %s%s%s' % (
+                              cn, tuple(pc), sn, tuple(ps), rel, ns, pts, sn, at,
+                              ' [parameters by name: %s(%s) vs %s(%s)]' % (cn, ', '.join('%s=%r' % kv for kv in byname['complex'].items()),
+                                                                           sn, ', '.join('%s=%r' % kv for kv in byname['simple'].items())) if len(byname) == 2 else '',
+                              ' [name semantics changed: %s]' % sem if sem else ''),
+                              data={'job': job, 'result': r, 'pair': pr, 'params_by_name': byname}, key=pr.get('key') if fnd else 'nesting:%s' % pr['id'])
+                for mk in (pr['complex'], pr['simple']):
+                    if not fnd:
+                        models_with_input.add(mk)
         elif kind == 'probe':
             key, nme, p, q, _ = m if m[0] is not None else (jid.split('|')[1], jid.split('|')[2], job['sparams'], job['cparams'], None)
             name = key.split(':')[-1]
@@ -561,6 +597,84 @@ def run(ctx):
             if not any(v['key'] == 'symmetry:%s' % sm['model'].split(':')[-1] for v in ctx.violations):
                 ctx.violation('program of %s is no longer invariant under the committed label exchange' % sm['model'], data={'symmetric': sm},
                               key=None, no_input=True, broken='equiv:%s' % sm['model'])
+    for key, nf in sorted(names_failed.items()):
+        name = key.split(':')[-1]; why = nf['msg']
+        if key not in models_with_input and not any(v['key'] and name in v['key'] and not v['no_input'] for v in ctx.violations):
+            # the search (every committed nesting of the model, run at the extra vectors too) found no failing input
+            ctx.violation('name semantics of %s changed: %s' % (key, why), data={'model': key, 'difference': why}, key='names:%s' % name,
+                          no_input=True, broken='names:%s' % key)
+
+# ------------------------------------------------------------------------------------------------
+# (6) name semantics
+def name_semantics(ctx, data, progs):
+    """-> {model key: {'msg': description of the difference, 'params': names of the parameters concerned}}.  One obligation per function: the keyword every declared parameter is handed
+    to is the committed one (functions outside the table: the naming conventions themselves)"""
+    try:
+        nd = json.load(open(NAMES))
+        table = nd['table']; cexc = nd.get('convention_exceptions', {}); uexc = nd.get('unpack_exceptions', {})
+    except (OSError, ValueError, KeyError) as e:
+        ctx.obligation('name-semantics table harness/props/c15_names.json readable', False, 'translator', repr(e))
+        ctx.violation('the committed name-semantics table cannot be read: %r' % (e,), no_input=True, broken='c15_names.json')
+        return {}
+    failed = {}
+    committed = {'%s:%s' % (f['file'], f['name']) for f in data['functions']}
+    missing = sorted(k for k in committed if k not in table)
+    ctx.obligation('name-semantics table covers the %d committed functions' % len(committed), not missing, 'translator', '; '.join(missing[:6]))
+    nconv = 0
+    for key, r in sorted(progs.items()):
+        cur = K.name_table(r)
+        msgs = []; conc = []
+        um = [list(x) for x in K.unpack_mismatch(r)]
+        if um != uexc.get(key, []):
+            conc += [b for k, a, b in um if b is not None]
+            msgs.append('the unpacking binds %s where __param_names__ says %s' % (
+                ', '.join('%s (position %d)' % (a, k) for k, a, b in um) or 'nothing unusual', ', '.join('%s' % b for k, a, b in um) or 'the same'))
+        if key in table:
+            com = table[key]
+            for nme in sorted(set(cur) | set(com), key=lambda x: (r['param_names'].index(x) if x in r['param_names'] else 99)):
+                a, b = cur.get(nme), com.get(nme)
+                if a != b:
+                    conc.append(nme)
+                    msgs.append('%s is handed to %s (committed: %s)' % (nme, ', '.join(a) if a else ('nothing' if a is not None else 'absent'),
+                                                                     ', '.join(b) if b else ('nothing' if b is not None else 'absent')))
+        else:
+            for nme, bad in K.convention_breaches(r, cur):
+                bad = [u for u in bad if u not in cexc.get(key, {}).get(nme, [])]
+                if bad or not cur[nme]:
+                    conc.append(nme)
+                    msgs.append('new function: %s is handed to %s, not to keyword %s' % (nme, ', '.join(bad) or 'nothing', '/'.join(sorted(K.conventional_keywords(nme)))))
+        nconv += sum(1 for n in cur if K.conventional_keywords(n) is not None)
+        ok = not msgs
+        ctx.obligation('names:%s every declared parameter is handed to the committed keyword of the committed call' % key, ok, 'translator', '; '.join(msgs))
+        if not ok:
+            failed[key] = {'msg': '; '.join(msgs), 'params': list(dict.fromkeys(conc))}
+    ctx.count('name_semantics_functions', len(progs)); ctx.count('name_semantics_conventionally_named_parameters', nconv)
+    return failed
+
+SPREAD = {'m': [0.5, 4.0, 2.0, 8.0, 1.0, 6.0], 'nu': [0.3, 3.0, 1.0, 8.0, 0.1, 2.0], 'gamma': [-4.0, 1.0, -1.0, -7.0], 'frac': [0.2, 0.7, 0.45, 0.9]}
+
+def concerned_commons(su, c, s, pr, names_failed):
+    """indices of the common parameters of a pair that feed a parameter whose name semantics changed (None: neither model concerned)"""
+    if pr['complex'] not in names_failed and pr['simple'] not in names_failed:
+        return None
+    out = set()
+    for mk, r, sg in ((pr['complex'], c, su['sgc']), (pr['simple'], s, su['sgs'])):
+        if mk not in names_failed:
+            continue
+        for i, nme in enumerate(r['param_names']):
+            if nme in names_failed[mk]['params'] and i < len(sg):
+                out |= M.expr_vars(sg[i])
+    return sorted(out)
+
+def spread_apart(q, common, concerned, variant):
+    """distinct, well separated values for the concerned common parameters of the same class (times are left as drawn)"""
+    seen = {}
+    for i in concerned:
+        cls = K.var_class(common[i])
+        if cls in SPREAD and i < len(q):
+            k = seen.get(cls, 0); seen[cls] = k + 1
+            vals = SPREAD[cls]
+            q[i] = vals[(k + variant) % len(vals)] if variant == 0 else vals[(len(vals) - 1 - k - variant) % len(vals)]
 
 # ------------------------------------------------------------------------------------------------
 # (5) concrete semantics of the programs: Model/ProgSem.run_prog against the real library function
@@ -774,6 +888,44 @@ def adequacy(ctx, data, progs, broken_models, wf_res, wf_meta, nest_ok, sym_ok):
         ctx.violation('hole in the nesting list opened by a source change: %d single-occurrence mutant(s) of %s survive every committed obligation, e.g. %s' % (
                       len(rs), unit, '; '.join(r['key'].split('|', 1)[1] for r in rs[:4])),
                       data={'unit': unit, 'mutants': [r['key'] for r in rs]}, key=None, no_input=True, broken='adequacy:%s' % unit)
+    # (d) second mutant class: two same-kind parameters exchanged in all their occurrences (= the names list transposed)
+    t1 = time.time()
+    xcom = com.get('exchange', {})
+    xunk = xcom.get('unkillable', {})
+    xrows, _, _ = K.exchange_table(data, cur, ob=ob, un=un)
+    xs = K.summarize_exchange(xrows)
+    xsurv, xskipped = [], 0
+    for r in xrows:
+        if r['identical'] or r['killed_by']:
+            continue
+        if any(m in hit for m in un.affected(r['model'])):
+            xskipped += 1
+            continue
+        xsurv.append(r)
+    xholes = [r for r in xsurv if r['key'] not in xunk]
+    xstale = sorted(k for k in xunk if k not in {r['key'] for r in xsurv})
+    ctx.stats['adequacy_exchange'] = {'mutants': xs['mutants'], 'provable_symmetries': xs['identical'], 'killed': xs['killed'],
+                                      'surviving_committed_unkillable': len(xsurv) - len(xholes), 'holes': len(xholes),
+                                      'not_evaluated_because_an_obligation_of_the_model_fails': xskipped,
+                                      'committed': {k: xcom.get(k) for k in ('mutants', 'identical', 'killed', 'unkillable_count')},
+                                      'unkillable (listed with reasons in c15_nesting.json "adequacy"."exchange")': sorted(r['key'] for r in xsurv if r['key'] in xunk),
+                                      'provable symmetries': sorted(r['key'] for r in xrows if r['identical']),
+                                      'seconds': round(time.time() - t1, 2)}
+    ctx.count('adequacy_exchange_mutants', xs['mutants']); ctx.count('adequacy_exchange_mutants_killed', xs['killed'])
+    ctx.notes.append('adequacy, exchange class: %d mutants (pairs of same-kind parameters exchanged in all occurrences), %d killed, %d provable symmetries, '
+                     '%d unkillable (listed), %d holes%s' % (xs['mutants'], xs['killed'], xs['identical'], len(xsurv) - len(xholes), len(xholes),
+                                                            ', %d not evaluated (an obligation of the model fails)' % xskipped if xskipped else ''))
+    if xstale:
+        ctx.notes.append('adequacy: %d committed unkillable exchange mutants are now killed or gone: %s' % (len(xstale), '; '.join(xstale[:4])))
+    ctx.obligation('adequacy: every exchange of two same-kind parameters in all their occurrences, in each of the %d model programs, is killed by a committed '
+                   'obligation, is a provable symmetry, or is committed as unkillable' % len(cur), not xholes, 'translator', '; '.join(r['key'] for r in xholes[:8]))
+    xby = {}
+    for r in xholes:
+        xby.setdefault(r['model'], []).append(r)
+    for unit, rs in sorted(xby.items()):
+        ctx.violation('hole in the nesting list opened by a source change: exchanging %s in all their occurrences in %s (= transposing its __param_names__) '
+                      'survives every committed obligation' % (', '.join('%s<->%s' % (r['a'], r['b']) for r in rs[:4]), unit),
+                      data={'unit': unit, 'mutants': [r['key'] for r in rs]}, key=None, no_input=True, broken='adequacy-exchange:%s' % unit)
 
 def diagnose_wf(r, data):
     names = r['param_names']; unp = r['unpacked']
